@@ -115,6 +115,53 @@ def _job(args):
     return out
 
 
+def _warm_job(args):
+    """A process that first worked with another warm-up window (an earlier session configured 100 candles) and then with the default
+    one: the non-sequential result must follow the window of the CURRENT configuration (clause (c) at the default 240)."""
+    names, earlier = args
+    import jesse.helpers as jh
+    from jesse.config import config
+    fs = dict(indreg.functions())
+    st, st2 = indreg.stems(480), indreg.stems(480, base=50.0)
+    c, c2 = st['walk1'][:480], st2['walk1'][:480]
+    out = {'n': 0, 'viols': [], 'covered': [], 'raised': 0}
+    old = config['env']['data'].get('warmup_candles_num', WARM)
+    for W, compare in ((earlier, False), (WARM, True)):
+        # what jesse.config.set_config does at the start of a session
+        jh.CACHED_CONFIG.clear()
+        config['env']['data']['warmup_candles_num'] = W
+        for name in names:
+            f = fs[name]
+            if not indreg.has(f, 'sequential'):
+                continue
+            try:
+                single = indreg.call(name, f, c, False, {}, c2)
+                if not compare:
+                    continue
+                tail = indreg.call(name, f, c[-W:], True, {}, c2[-W:])
+            except Exception:
+                out['raised'] += 1
+                continue
+            out['n'] += 1
+            for (fn, sv), (_, tv) in zip(indreg.fields(single), indreg.fields(tail)):
+                try:
+                    ta = np.asarray(tv, dtype=float)
+                    s1 = float(sv) if sv is not None else float('nan')
+                except (ValueError, TypeError):
+                    continue
+                if ta.ndim == 0 or not len(ta):
+                    continue
+                ref = ta[-4] if (name == 'minmax' and fn in ('is_min', 'is_max')) else ta[-1]
+                if not indreg.same(s1, ref, rel=1e-9, abs_=1e-9):
+                    out['viols'].append(Violation('single-ignores-warmup-window', {'indicator': name, 'field': fn, 'after_other_window': True},
+                                                  {'indicator': name, 'earlier_window': earlier, 'window': W, 'length': 480, 'warm': True},
+                                                  '%s on 480 candles after a session configured with a %d-candle window: non-sequential = %r, sequential on the trailing %d candles ends with %r (field %s)' % (name, earlier, s1, W, float(ref), fn)).to_json())
+                    break
+    jh.CACHED_CONFIG.clear()
+    config['env']['data']['warmup_candles_num'] = old
+    return out
+
+
 def run(ctx):
     cov = ctx.coverage
     names = [n for n, f in indreg.functions()]
@@ -133,6 +180,19 @@ def run(ctx):
         cov['transitions'] += r['n']
         ctx.count('raised', r['raised'])
         ctx.count('boundary-length-evaluations', r['n'])
+        for v in r['viols']:
+            v = Violation.from_json(v)
+            if v.sigkey() not in sigs:
+                sigs.add(v.sigkey())
+                ctx.add(v)
+    wjobs = [(names[i:i + 12], w) for i in range(0, len(names), 12) for w in (100, 300)]
+    for j, (st, r) in zip(wjobs, core.pmap_isolated(_warm_job, wjobs)):
+        if st != 'ok':
+            crashed.append('%s..: %s in the window-change job' % (j[0][0], r))
+            continue
+        cov['transitions'] += r['n']
+        ctx.count('raised', r['raised'])
+        ctx.count('evaluations-after-another-warm-up-window', r['n'])
         for v in r['viols']:
             v = Violation.from_json(v)
             if v.sigkey() not in sigs:
@@ -168,6 +228,8 @@ def run(ctx):
 
 
 def replay(case, ctx):
+    if case.get('warm'):
+        return [Violation.from_json(v) for v in _warm_job(([case['indicator']], case['earlier_window']))['viols']]
     r = _job(([case['indicator']], False, 0))
     rb = _job(([case['indicator']], False, 0, True))
     return [Violation.from_json(v) for v in r['viols'] + rb['viols']]
